@@ -109,7 +109,9 @@ CHECKS = {
     "C18": dict(engine="routing", design="5 C18", technique="TLC model checking of Routing.tla over a finite domain + replay of exported scenarios through DynFilterAdapters/DynStrategyAdapter::from_config + TLC trace validation recomputing eligibility",
                 text="spec/Routing.tla (eligibility from rules, allow/block lists, host scope; acceptable choices per strategy) is checked by TLC; every explored scenario is exported as the "
                      "serde configuration plus targets, player and host, replayed into adapters built from that configuration, and the recorded (filtered, chosen) is judged by TLC through "
-                     "Trace_Routing, which recomputes eligibility (ties under player-fill are all acceptable; unreadable counts admit both documented readings).",
+                     "Trace_Routing, which recomputes eligibility (ties under player-fill are all acceptable; unreadable counts admit both documented readings). Application stage: 240 (quick) / "
+                     "4,000 (thorough) of the scenarios are also run through passage::start(Config) on loopback with a real login as the authenticated player (the client claims another "
+                     "identity); where the player is sent is judged by the choice clauses of Routing.tla.",
                 note="Trusted: TLC; pattern / decimal-count / UUID tables generated by Python and re-checked against the Rust regex, u32 parser and uuid crate on every run. Sampled product of a "
                      "~10^14 scenario space seeded by VERIF_SEED; the strategy-focus set is exhaustive. Filter order/multiplicity differences are model drift only (C03 covers list hand-over)."),
     "C19": dict(engine="grpc", design="5 C19", technique="TLC model checking of GrpcBoundary.tla (conversions, error cases, exchange machine) + exhaustive script replay against the real gRPC adapters and an in-process tonic service generated from the repository's .proto files + TLC trace validation against the C19 clauses",
